@@ -11,7 +11,9 @@ bounded part (bounded/C18_native.py, deal run-time contracts over a seeded state
       with ValueError (12 variants).  One defect repaired by a fix commit: under NumPy >= 2 no mass that needs solving could be computed (TypeError).
 observation (not a claim): solve() ignores the convergence flag of scipy.optimize.fsolve -- outside the perturbative range (e.g. alpha_s = 0.118 imposed at 400 GeV with
 nf = 6, N3LO exact, charm) it returns a value that is not a fixed point without any error; the bounded inputs use real-world alpha_s(Qref).
-not covered: the decoupling constants of the running mass across matching scales and their RG-required logarithms; convergence of scipy.optimize.fsolve
+  (c) decoupling of the running mass across a matching scale: with m^(nf+1) = m^(nf) zeta(L, a'), a' the decoupled coupling (C16) and L = ln(mu^2/m_h(mu)^2), the RG residual
+      d ln m^(nf+1)/dt + gamma_m^(nf+1)(a') vanishes through O(a^3) identically in nf and L (the L^0 term at a^3 to the printed digits of the decimal coefficients).
+not covered: the L-independent decoupling constants themselves (literature values); convergence of scipy.optimize.fsolve
 (the returned value is checked to be a fixed point on the sampled inputs only).
 """
 from fractions import Fraction as Q
@@ -48,9 +50,9 @@ def run(chk):
     from pyvc import bounded
 
     rp = script(REPLAY, kind="mass_rge_oracle")
-    chk.under_contract("eko.msbar_masses:ker_expanded", "eko.msbar_masses:ker_dispatcher", "eko.msbar_masses:compute", "eko.msbar_masses:solve", "eko.msbar_masses:evolve")
+    chk.under_contract("eko.msbar_masses:compute_matching_coeffs_up", "eko.msbar_masses:ker_expanded", "eko.msbar_masses:ker_dispatcher", "eko.msbar_masses:compute", "eko.msbar_masses:solve", "eko.msbar_masses:evolve")
     chk.trust("C20: beta and gamma_m coefficient functions equal the literature values (generic symbols here)", "BOUNDED part (b): deal run-time contracts over the stated finite input set only")
-    chk.uncovered("decoupling constants of the running mass across matching scales and the RG-required logarithmic terms (compute_matching_coeffs_up/down)",
+    chk.uncovered("the L-independent decoupling constants of the running mass (literature values c[2,0], c[3,0])",
                   "convergence of scipy.optimize.fsolve / integrate.quad (numerical libraries)")
     chk.bounded_parts.append("(b) fixed points m(m) = m, sortedness and refusal of inconsistent inputs: deal run-time contracts on msbar_masses.compute over 48 + 12 seeded inputs (bounded/C18_native.py)")
 
@@ -123,6 +125,42 @@ def run(chk):
             del mm.float
     finally:
         mm.beta_qcd, mm.b_qcd, mm.gamma = saved
+    # ---- (c) decoupling of the running mass across a matching scale: the logarithms are those required by RG invariance ------------------------------
+    from pyvc.series import Series
+    from eko import beta as beta_mod, gamma as gamma_mod, couplings as cpl
+    from contracts.common import coeffs_in as _coeffs
+    nf, Lg = T.var("nf"), T.var("L")
+    cm = mm.compute_matching_coeffs_up(nf)
+    cc = cpl.compute_matching_coeffs_up("MSBAR", nf)
+    a = Series.indet("a", 6)
+    bfun = lambda x, nfv: sum((beta_mod.beta_qcd((k + 2, 0), nfv) * x ** (k + 2) for k in range(3)), 0)
+    gfun = lambda x, nfv: sum((gamma_mod.gamma(k + 1, nfv) * x ** (k + 1) for k in range(3)), 0)
+    F = 1
+    for n in range(1, 4):
+        for l in range(n + 1):
+            F = F + (a ** n) * (Lg ** l * cc[n, l])
+    ap = a * F                                         # coupling of the nf+1 scheme in terms of the nf one (C16)
+    zeta = 1
+    for n in range(1, 4):
+        for l in range(n + 1):
+            zeta = zeta + (ap ** n) * (Lg ** l * cm[n, l])
+    lnz = zeta.log()                                   # m^(nf+1) = m^(nf) * zeta
+    dLdt = 1 + 2 * gfun(ap, nf + 1)                    # L = ln(mu^2 / m_h(mu)^2) with the running heavy-quark mass (same convention as the coupling decoupling, C16)
+    dlnz_dL = Series("a", lnz.val, [T.diff(T.lift(c_), "L") for c_ in lnz.c])
+    resid = -gfun(a, nf) + lnz.deriv() * (-bfun(a, nf)) + dlnz_dL * dLdt + gfun(ap, nf + 1)
+    fnm = "eko.msbar_masses:compute_matching_coeffs_up"
+    for k in (1, 2):
+        chk.eq(f"C18.mass_decoupling.rg.a^{k}", resid.coeff(k), 0, fn=fnm, replay=rp, ranges={"nf": (3, 5), "L": (-1.0, 1.0)}, goal=f"[a^{k}] ( d ln m^(nf+1)/dt + gamma_m^(nf+1)(a') ) == 0 for every nf and L")
+    c3 = _coeffs(T.lift(resid.coeff(3)), "L", 4)
+    for l in (1, 2, 3):
+        chk.eq(f"C18.mass_decoupling.rg.a^3.L^{l}", c3[l], 0, fn=fnm, replay=rp, ranges={"nf": (3, 5)}, goal=f"[a^3 L^{l}] of the RG residual == 0 for every nf (coefficients given as exact fractions)")
+    for nfv in (3, 4, 5):
+        val = abs(complex(T.evalmp(T.subst(T.lift(c3[0]), {"nf": nfv}), {}, 30)))
+        chk.ground(f"C18.mass_decoupling.rg.a^3.L^0[nf={nfv}]", val <= 3e-4, fn=fnm, replay=rp, backend="exact-eval+mpmath",
+                   goal="[a^3 L^0] of the RG residual vanishes to the printed digits of the decimal coefficients c[3,1] = 71.7887 + 7.85185 nf", detail=f"residual {val:.3e}")
+    chk.eq_array("C18.mass_decoupling.unused_coefficients", np.array([cm[n, l] for n in range(4) for l in range(4) if l > n or n < 2], dtype=object), np.array([Q(0)] * len([1 for n in range(4) for l in range(4) if l > n or n < 2]), dtype=object),
+                 fn=fnm, goal="no coefficient below O(a_s^2) or with more logs than the order", replay=rp)
+
     # ---- (b) bounded ----------------------------------------------------------------------------------------------------------------------------------
     n = bounded.run_native(chk, "C18_native.py", backend="deal-runtime(bounded)")
     chk.extra["bounded_contract_evaluations"] = n
